@@ -445,9 +445,16 @@ def lex_oracle(env, src, removed_ok=None):
 
 def loop_tasks(clauses, prefix):
     ts = []
+    seen = set()
     for fam, sh in X.rule_shapes():
         if sh.kind == "named":
             for j in range(len(sh.names)):
+                # the body only distinguishes the number of branches, the position of the matched one and whether it is the
+                # variable tag: one VC per such combination over the families
+                key = (len(sh.names), j, sh.names[j] == L.TOKEN_VARIABLE_BEGIN)
+                if key in seen:
+                    continue
+                seen.add(key)
                 ts.append(LoopBody(fam, sh, j, clauses, prefix))
         else:
             ts.append(LoopBody(fam, sh, None, clauses, prefix))
